@@ -9,9 +9,19 @@
 //   "--detach" returns                   startContainer's goroutine: running[c] = rr   (rr is closed)
 //   probe  "crunch-run --list" -> (none) updateRunning: closeRunner(c): rr.Close() again
 //
-// On the unchanged tree the last step panics ("close of closed channel") and the dispatcher process
-// dies.  The scenario runs in a child process; the parent records {"ev":"crashed"} or
-// {"ev":"final"} for specs/dispatch/DispatchLiveTrace.tla.  The driver decides nothing.
+// Before commit e9d9f24 the last step panicked ("close of closed channel") and the dispatcher process
+// died (KF-C15-1, fixed); kept as a regression scenario (9001).
+//
+// Second regression scenario (9002, KF-C15-2, fixed by 954c07f), also free of timing: an Executor
+// calls target.VerifyHostKey - as sshexecutor does when its connection is established - AFTER the
+// instance has been destroyed and pool.sync has dropped the worker:
+//
+//   boot probe Execute("true")            blocks
+//   instance.Destroy(); wait until pool.Instances() no longer lists it
+//   target.VerifyHostKey(hostkey, nil)    TagVerifier -> Pool.reportSSHConnected(inst): wp.workers[id] == nil
+//
+// Each scenario runs in a child process; the parent records {"ev":"crashed"} or {"ev":"final"} for
+// specs/dispatch/DispatchLiveTrace.tla.  The driver decides nothing.
 
 package dispatchcloud
 
@@ -86,6 +96,109 @@ func (x *vReproExec) Execute(env map[string]string, cmd string, stdin io.Reader)
 		return []byte("\n"), nil, nil
 	}
 	return nil, nil, nil // boot probe, kill
+}
+
+// Executor of scenario 9002
+type vReproExec2 struct {
+	mu      sync.Mutex
+	target  cloud.ExecutorTarget
+	hostkey ssh.PublicKey
+	sis     cloud.InstanceSet
+	pool    func() *worker.Pool
+	fired   bool
+	done    chan struct{}
+	note    string
+}
+
+func (x *vReproExec2) SetTarget(t cloud.ExecutorTarget) { x.mu.Lock(); x.target = t; x.mu.Unlock() }
+func (x *vReproExec2) Close()                           {}
+func (x *vReproExec2) Execute(env map[string]string, cmd string, stdin io.Reader) ([]byte, []byte, error) {
+	x.mu.Lock()
+	if x.fired {
+		x.mu.Unlock()
+		return nil, nil, fmt.Errorf("verif: instance gone")
+	}
+	x.fired = true
+	target := x.target
+	x.mu.Unlock()
+	defer close(x.done)
+	insts, _ := x.sis.Instances(nil)
+	for _, inst := range insts {
+		inst.Destroy()
+	}
+	for t0 := time.Now(); len(x.pool().Instances()) > 0; time.Sleep(time.Millisecond) {
+		if time.Since(t0) > 30*time.Second {
+			x.note = "worker was not dropped"
+			return nil, nil, fmt.Errorf("verif: not applicable")
+		}
+	}
+	// what sshexecutor does once its connection is up
+	target.VerifyHostKey(x.hostkey, nil)
+	return nil, nil, fmt.Errorf("verif: instance gone")
+}
+
+func TestVerifC15Repro2Child(t *testing.T) {
+	if os.Getenv("VERIF_C15_CHILD") == "" {
+		t.Skip("child of TestVerifC15Repro")
+	}
+	logger := logrus.New()
+	logger.Out = io.Discard
+	rawhost, err := ioutil.ReadFile("test/sshkey_vm")
+	if err != nil {
+		t.Fatal(err)
+	}
+	hostpriv, err := ssh.ParsePrivateKey(rawhost)
+	if err != nil {
+		t.Fatal(err)
+	}
+	sd := &test.StubDriver{HostKey: hostpriv}
+	it := test.InstanceType(1)
+	cluster := &arvados.Cluster{
+		Containers: arvados.ContainersConfig{
+			CrunchRunCommand: "crunch-run",
+			CloudVMs: arvados.CloudVMsConfig{
+				SyncInterval:       arvados.Duration(5 * time.Millisecond),
+				ProbeInterval:      arvados.Duration(2 * time.Millisecond),
+				MaxProbesPerSecond: 1000,
+				TimeoutIdle:        arvados.Duration(time.Hour),
+				TimeoutBooting:     arvados.Duration(time.Hour),
+				TimeoutProbe:       arvados.Duration(time.Hour),
+				TagKeyPrefix:       "test:",
+			},
+		},
+		InstanceTypes: arvados.InstanceTypeMap{it.Name: it},
+	}
+	arvadostest.SetServiceURL(&cluster.Services.Controller, "https://"+os.Getenv("ARVADOS_API_HOST")+"/")
+	arvClient, _ := arvados.NewClientFromConfig(cluster)
+	arvClient.AuthToken = arvadostest.AdminToken
+	sis, err := sd.InstanceSet(nil, "verif-repro2", nil, logger)
+	if err != nil {
+		t.Fatal(err)
+	}
+	var pool *worker.Pool
+	var pmu sync.Mutex
+	x := &vReproExec2{hostkey: hostpriv.PublicKey(), sis: sis, done: make(chan struct{}),
+		pool: func() *worker.Pool { pmu.Lock(); defer pmu.Unlock(); return pool }}
+	pmu.Lock()
+	pool = worker.NewPool(logger, arvClient, prometheus.NewRegistry(), "verif-repro2", sis,
+		func(inst cloud.Instance) worker.Executor { x.SetTarget(inst); return x }, nil, cluster)
+	pmu.Unlock()
+	defer pool.Stop()
+	for t0 := time.Now(); !pool.Create(it); time.Sleep(time.Millisecond) {
+		if time.Since(t0) > 30*time.Second {
+			t.Fatal("Create refused")
+		}
+	}
+	select {
+	case <-x.done:
+	case <-time.After(60 * time.Second):
+		t.Fatal("script not completed")
+	}
+	if x.note != "" {
+		fmt.Println("VERIF-CHILD-NOTE", x.note)
+		return
+	}
+	fmt.Println("VERIF-CHILD-DONE")
 }
 
 func TestVerifC15ReproChild(t *testing.T) {
@@ -163,35 +276,40 @@ func TestVerifC15Repro(t *testing.T) {
 		t.Fatal(err)
 	}
 	defer out.Close()
-	cmd := exec.Command(os.Args[0], "-test.run", "^TestVerifC15ReproChild$", "-test.timeout", "5m")
-	cmd.Env = append(os.Environ(), "VERIF_C15_CHILD=1")
-	cout, cerr := cmd.CombinedOutput()
 	w := func(m map[string]interface{}) {
 		b, _ := json.Marshal(m)
 		out.WriteString(string(b) + "\n")
 	}
-	w(map[string]interface{}{"ev": "reset", "scn": 9001, "nc": 1, "nw": 1, "init": []string{"Locked"}, "mode": "sound"})
-	if cerr == nil && strings.Contains(string(cout), "VERIF-CHILD-DONE") {
-		w(map[string]interface{}{"ev": "final", "timedout": false, "notfinal": []int{}, "instances": 0, "repro": true})
-	} else if strings.Contains(string(cout), "panic:") {
-		msg, where := "", ""
-		for _, l := range strings.Split(string(cout), "\n") {
-			if strings.HasPrefix(l, "panic:") && msg == "" {
-				msg = l
+	for _, sc := range []struct {
+		id    int
+		child string
+	}{{9001, "^TestVerifC15ReproChild$"}, {9002, "^TestVerifC15Repro2Child$"}} {
+		cmd := exec.Command(os.Args[0], "-test.run", sc.child, "-test.timeout", "5m")
+		cmd.Env = append(os.Environ(), "VERIF_C15_CHILD=1")
+		cout, cerr := cmd.CombinedOutput()
+		w(map[string]interface{}{"ev": "reset", "scn": sc.id, "nc": 1, "nw": 1, "init": []string{"Locked"}, "mode": "sound"})
+		if cerr == nil && strings.Contains(string(cout), "VERIF-CHILD-DONE") {
+			w(map[string]interface{}{"ev": "final", "timedout": false, "notfinal": []int{}, "instances": 0, "repro": true})
+		} else if strings.Contains(string(cout), "panic:") {
+			msg, where := "", ""
+			for _, l := range strings.Split(string(cout), "\n") {
+				if strings.HasPrefix(l, "panic:") && msg == "" {
+					msg = l
+				}
+				if strings.HasPrefix(l, "git.arvados.org") && strings.Contains(l, "lib/dispatchcloud/") && len(where) < 600 {
+					where += strings.TrimSpace(l) + "; "
+				}
 			}
-			if strings.HasPrefix(l, "git.arvados.org") && strings.Contains(l, "lib/dispatchcloud/") && len(where) < 600 {
-				where += strings.TrimSpace(l) + "; "
+			w(map[string]interface{}{"ev": "crashed", "msg": msg, "where": where, "scn": sc.id})
+		} else {
+			// neither survived nor panicked: the script could not be applied
+			tail := string(cout)
+			if len(tail) > 1500 {
+				tail = tail[len(tail)-1500:]
 			}
+			fmt.Printf("VERIF-NOTE repro scenario %d not applicable: %s\n", sc.id, tail)
+			w(map[string]interface{}{"ev": "note", "what": "repro not applicable"})
 		}
-		w(map[string]interface{}{"ev": "crashed", "msg": msg, "where": where, "scn": 9001})
-	} else {
-		// neither survived nor panicked: the script could not be applied
-		tail := string(cout)
-		if len(tail) > 1500 {
-			tail = tail[len(tail)-1500:]
-		}
-		fmt.Println("VERIF-NOTE repro scenario not applicable:", tail)
-		w(map[string]interface{}{"ev": "note", "what": "repro not applicable"})
 	}
 	fmt.Println("VERIF-DRIVER-DONE")
 }
